@@ -96,7 +96,7 @@ def _env(var, state):
     return env
 
 
-def import_fallback(ctx, keys):
+def import_fallback(ctx, keys, var="domain_indices"):
     """The importer may replace the physical tags by another key only when they carry no information."""
     r = ctx.rule("IMPORT-FALLBACK", "import_grid replaces the physical tags by a fallback key only when they are absent or all zero, never when some element carries a non-zero tag", 2)
     imp = ctx.repo.mod(IO).fn("import_grid")
@@ -111,7 +111,7 @@ def import_fallback(ctx, keys):
             found += 1
             for state in ("zero and non-zero", "all non-zero"):
                 try:
-                    taken = bool(dispatch.value(st.test, _env("domain_indices", state)))
+                    taken = bool(dispatch.value(st.test, _env(var, state)))
                 except dispatch.Unknown as u:
                     raise AnalysisError("import_grid: fallback to %s guarded by a test the analysis cannot decide: `%s` (unknown: %s)" % (keys[1][0], unparse(st.test), u))
                 r.check(not taken, "tags %s" % state, IO, "import_grid", st.lineno, "fallback when tags are " + state,
@@ -152,11 +152,36 @@ def _canon(text):
     return roles.canon_text(text).replace(" ", "")
 
 
+def _export_names(exp):
+    """Locals of export() by role: the dicts / format handed to meshio's writer and the file extension."""
+    wc = [c for c in ast.walk(exp) if isinstance(c, ast.Call) and unparse(c.func).endswith("write_points_cells")]
+    if len(wc) != 1:
+        raise AnalysisError("export: expected exactly one meshio write_points_cells call")
+    kw = {k.arg: k.value for k in wc[0].keywords}
+    pos = dict(zip(("filename", "points", "cells", "point_data", "cell_data"), wc[0].args))
+    kw = dict(pos, **kw)
+    names = {}
+    for role in ("point_data", "cell_data", "file_format"):
+        if not isinstance(kw.get(role), ast.Name):
+            raise AnalysisError("export: %s is not handed to meshio as a plain local" % role)
+        names[role] = kw[role].id
+    ext = None
+    for st in ast.walk(exp):
+        if isinstance(st, ast.Assign) and isinstance(st.value, ast.Call) and unparse(st.value.func).endswith("splitext") and isinstance(st.targets[0], ast.Tuple) and len(st.targets[0].elts) == 2 \
+                and isinstance(st.targets[0].elts[1], ast.Name):
+            ext = st.targets[0].elts[1].id
+    if ext is None:
+        raise AnalysisError("export: the file extension is not taken from os.path.splitext(filename)")
+    names["extension"] = ext
+    return names
+
+
 def export_run(exp, ext, data_type, cplx, what):
     """Effects of export() for a file extension, a data type (None: grid export) and real/complex data."""
     body = [s for s in exp.body if not (isinstance(s, ast.Expr) and isinstance(s.value, ast.Constant)) and not isinstance(s, (ast.Import, ast.ImportFrom))]
     p = [a.arg for a in exp.args.args]
-    env = {"extension": ext, "write_binary": True}
+    EXT = _export_names(exp)["extension"]
+    env = {EXT: ext, "write_binary": True}
     if what == "grid":
         env.update({"grid": "‹grid›", "grid_function": None, "data_type": None})
     elif what == "both":
@@ -166,7 +191,7 @@ def export_run(exp, ext, data_type, cplx, what):
     for c in ast.walk(exp):
         if isinstance(c, ast.Call) and unparse(c.func).split(".")[-1] == "iscomplexobj":
             env[unparse(c)] = cplx  # abstract predicate: the evaluated data are complex / real
-    effs = dispatch.effects(body, env, "export", pinned=("extension",))
+    effs = dispatch.effects(body, env, "export", pinned=(EXT,))
     sets = {e[1]: e[2] for e in effs if e[0] == "set"}
     stores = [(e[1], e[2]) for e in effs if e[0] == "store"]
     return effs, sets, stores
@@ -176,6 +201,8 @@ def export_dispatch(ctx, first_key):
     r = ctx.rule("EXPORT-DISPATCH", "export(), executed abstractly per (file type, grid / node data / element data, real / complex): .msh files carry the domain indices under the key the importer reads first and use the tag-preserving format; node data become point data and element data cell data (real and imaginary part for complex values) of the transformed evaluation; other data types and ambiguous calls are rejected", 10)
     exp = ctx.repo.mod(IO).fn("export")
     DOM = _canon("grid.domain_indices.reshape((1, -1))")
+    NM = _export_names(exp)
+    CD, PD, FF = NM["cell_data"], NM["point_data"], NM["file_format"]
 
     def key_of(target):
         t = ast.parse(target, mode="eval").body
@@ -184,31 +211,31 @@ def export_dispatch(ctx, first_key):
     # (1) grid export, Gmsh and other formats
     for ext in (".msh", ".vtu"):
         effs, sets, stores = export_run(exp, ext, None, False, "grid")
-        keys = {key_of(t)[1]: _resolved(v, {k: x for k, x in sets.items() if k != "grid"}) for t, v in stores if key_of(t)[0] == "cell_data"}
+        keys = {key_of(t)[1]: _resolved(v, {k: x for k, x in sets.items() if k != "grid"}) for t, v in stores if key_of(t)[0] == CD}
         if ext == ".msh":
-            ok = keys.get(first_key) == DOM and sets.get("file_format") == "gmsh22"
-            msg = "for a .msh file export stores %s under cell-data keys and uses file format %r: the importer reads %r first and needs the Gmsh 2.2 writer to find the domain indices there" % (sorted(k for k in keys if k), sets.get("file_format"), first_key)
+            ok = keys.get(first_key) == DOM and sets.get(FF) == "gmsh22"
+            msg = "for a .msh file export stores %s under cell-data keys and uses file format %r: the importer reads %r first and needs the Gmsh 2.2 writer to find the domain indices there" % (sorted(k for k in keys if k), sets.get(FF), first_key)
         else:
             ok = first_key not in keys and any(v == DOM for v in keys.values())
             msg = "for a non-Gmsh file export stores %s (Gmsh tag keys in a format that does not know them, or no domain indices at all)" % sorted(k for k in keys if k)
         r.check(ok, "grid export to %s" % ext, IO, "export", exp.lineno, "grid export to " + ext, msg)
-        pd = sets.get("point_data", None)
+        pd = sets.get(PD, None)
         r.check(pd is None or pd == "None", "grid export to %s has no point data" % ext, IO, "export", exp.lineno, "grid export point data", "a pure grid export writes point data `%s`" % pd)
     # (2) grid-function export
     for dt, src in (("node", "evaluate_on_vertices"), ("element", "evaluate_on_element_centers")):
         D = "_transform_array(grid_function.%s(), transformation).T" % src
         for cplx in (True, False):
             effs, sets, stores = export_run(exp, ".vtu", dt, cplx, "gf")
-            cell = {key_of(t)[1]: _resolved(v, sets) for t, v in stores if key_of(t)[0] == "cell_data"}
+            cell = {key_of(t)[1]: _resolved(v, sets) for t, v in stores if key_of(t)[0] == CD}
             data_keys = {k: v for k, v in cell.items() if k in ("real", "imag", "data")}
-            pd = sets.get("point_data")
+            pd = sets.get(PD)
             if dt == "node":
                 want = {"real": _canon("_np.real(%s)" % D), "imag": _canon("_np.imag(%s)" % D)} if cplx else {"data": _canon(D)}
                 got = None
                 if isinstance(pd, str) and pd != "None":
                     node = ast.parse(pd, mode="eval").body
                     if isinstance(node, ast.Dict) and all(isinstance(k, ast.Constant) for k in node.keys):
-                        rest = {k: v for k, v in sets.items() if k != "point_data"}
+                        rest = {k: v for k, v in sets.items() if k != PD}
                         got = {k.value: _resolved(unparse(v), rest) for k, v in zip(node.keys, node.values)}
                 ok = got == want and not data_keys
                 msg = "node data (%s): point data are `%s`, expected `%s`; cell-data entries %s" % ("complex" if cplx else "real", got, want, sorted(data_keys))
@@ -218,7 +245,7 @@ def export_dispatch(ctx, first_key):
                 wantc = {k: roles.canon(ast.parse(v, mode="eval").body.args[0], roles._NoDefs()).replace(" ", "") for k, v in want.items()}
                 gotc = {}
                 for t, v in stores:
-                    if key_of(t)[0] == "cell_data" and key_of(t)[1] in ("real", "imag", "data"):
+                    if key_of(t)[0] == CD and key_of(t)[1] in ("real", "imag", "data"):
                         node = _Subst(sets).visit(ast.parse(v, mode="eval").body)
                         inner = node.args[0] if isinstance(node, ast.Call) and unparse(node.func).split(".")[-1] in ("array", "asarray") and node.args else node
                         gotc[key_of(t)[1]] = roles.canon(inner, roles._NoDefs()).replace(" ", "")
@@ -232,6 +259,7 @@ def export_dispatch(ctx, first_key):
     r.check(any(e[0] == "raise" for e in effs), "grid and grid function together rejected", IO, "export", exp.lineno, "grid and grid_function", "passing both a grid and a grid function is not rejected")
     bad = ast.parse("def export(filename, grid=None, grid_function=None, data_type=None, transformation=None, write_binary=True):\n    _, extension = os.path.splitext(filename)\n    file_format = None\n"
                     "    if extension != '.msh':\n        gmsh = True\n        file_format = 'gmsh22'\n    else:\n        gmsh = False\n    cell_data = {}\n    point_data = None\n"
-                    "    if gmsh:\n        cell_data['gmsh:physical'] = grid.domain_indices.reshape((1, -1))\n    else:\n        cell_data['domain_index'] = grid.domain_indices.reshape((1, -1))\n").body[0]
+                    "    if gmsh:\n        cell_data['gmsh:physical'] = grid.domain_indices.reshape((1, -1))\n    else:\n        cell_data['domain_index'] = grid.domain_indices.reshape((1, -1))\n"
+                    "    _meshio.write_points_cells(filename, points, cells, point_data=point_data, cell_data=cell_data, file_format=file_format, binary=write_binary)\n").body[0]
     _, sets, stores = export_run(bad, ".msh", None, False, "grid")
     r.must_fire(not any(key_of(t)[1] == "gmsh:physical" for t, v in stores), "Gmsh tags written for every extension except .msh")
